@@ -1,7 +1,8 @@
 """C05 - responses are protocol-valid and length-consistent on both server interfaces."""
 PROP = 'C05'
-LEAN_MODULES = ['FalconModel.FinalizeProofs', 'FalconModel.FinalizeProofs2', 'FalconModel.FinalizeTraceProofs']
-DRIVERS = ['fzdriver', 'fztdriver']
+LEAN_MODULES = ['FalconModel.FinalizeProofs', 'FalconModel.FinalizeProofs2', 'FalconModel.FinalizeTraceProofs',
+                'FalconModel.FinalizeWsgiProofs', 'FalconModel.FinalizeErrProofs', 'FalconModel.FinalizeSseProofs']
+DRIVERS = ['fzdriver', 'fztdriver', 'fz2driver']
 THEOREMS = [
     'Fz.wsgi_asgi_agree', 'Fz.bodiless_no_payload', 'Fz.content_length_exact',
     'Fz.body_precedence', 'Fz.typeless_no_default_content_type_partial', 'Fz.otherwise_has_content_type',
@@ -13,6 +14,19 @@ THEOREMS = [
     'Fz.trace_refines_asgi', 'Fz.loopIter_open', 'Fz.loopFile_open', 'Fz.loopIter_drain', 'Fz.loopFile_drain',
     # F16 (known finding, stays in the code): the negation of the unrestricted "typeless" statement, by `decide`
     'Fz.f16_witness',
+    # WSGI event level (FinalizeWsgi.lean): start_response calls, the returned iterable, a PEP 3333 server that may abandon
+    'Wg.wsgi_one_start_valid_status', 'Wg.wsgi_bad_status_no_start', 'Wg.status_line_valid', 'Wg.line_of_code', 'Wg.toDigits3',
+    'Wg.wsgi_chunks_are_body', 'Wg.wsgi_stream_closed_exactly_once', 'Wg.wsgi_file_wrapper_owns_close',
+    'Wg.wsgi_not_begun_never_closed', 'Wg.iterate_closes', 'Wg.iterate_abandon', 'Wg.iterate_abandon_err',
+    'Wg.iterate_closeable_drain', 'Wg.iterate_plain_drain', 'Wg.call_iterable',
+    # render-time errors (FinalizeErr.lean, fix 492d3f9), both stacks
+    'Fe.render_error_body_is_sent', 'Fe.render_error_twice_empty_body', 'Fe.err_content_length_exact', 'Fe.err_wsgi_asgi_agree',
+    'Fe.wsgiE_ok', 'Fe.asgiE_ok', 'Fe.wsgiE_handled', 'Fe.asgiE_handled', 'Fe.wsgiE_twice', 'Fe.asgiE_twice', 'Fe.unhandled',
+    'Fe.handler_input', 'Fe.wsgi_eq_tail', 'Fe.asgi_eq_tail',
+    # SSE (FinalizeSse.lean): SSEvent.serialize and the SSE branch of asgi.App.__call__
+    'Sse.sse_frames_wellformed', 'Sse.sse_serialize_fields_exact', 'Sse.sse_one_body_per_event', 'Sse.sse_closes_zero',
+    'Sse.sse_disconnect_complete', 'Sse.sse_start_content_type', 'Sse.serialize_none_iff', 'Sse.serialize_lines',
+    'Sse.sse_multiline_data_is_not_split', 'Sse.splitLF_join', 'Sse.parseBlock_join', 'Sse.decInt_noLF',
 ]
 STATEMENTS = {
     'Fz.wsgi_asgi_agree': 'for every response state (status, text, data, rendered media, stream kind/chunks/failing call, header dict, cookies) and configuration (HEAD, default media type, file_wrapper): the WSGI tail and the ASGI tail produce the same status, the same header list in the same order, the same payload bytes and the same propagation of a stream failure',
@@ -31,16 +45,37 @@ STATEMENTS = {
     'Fz.trace_start': 'the first event, if any, is the start event carrying the status and header list of Fz.asgi (so all header theorems apply to it)',
     'Fz.trace_refines_asgi': 'without a send() fault the bodies of the body events are exactly the chunk list of Fz.asgi and an exception leaves __call__ exactly when the stream failed (ties the event-level model to the model of the other theorems)',
     'Fz.f16_witness': 'F16: a 204 whose body was given as media carries a Content-Type the application never set',
+    'Wg.wsgi_one_start_valid_status': 'WSGI, for every response state, stream and configuration and every valid status (int or digit string 100..999, http.HTTPStatus member, or a str that is a status line): start_response is called exactly once; the status line is "NNN reason" with a non-empty reason and NNN the code the application chose (which also decides the HEAD/bodiless handling); the header pairs are those of Fz.wsgi for that code; an iterable is returned (falcon.status_codes entries are assumed to have the form "<n> <phrase>")',
+    'Wg.wsgi_bad_status_no_start': 'a numeric status outside 100..999 raises ValueError out of __call__ before start_response is called',
+    'Wg.wsgi_chunks_are_body': 'WSGI: the byte strings a PEP 3333 server takes from the returned iterable (the list, wsgi.file_wrapper(stream), CloseableStreamIterator(stream) or the stream itself) are exactly the body of Fz.wsgi, the iteration raises exactly when Fz.wsgi says the stream fails, their concatenation is the payload the ASGI model sends (via Fz.wsgi_asgi_agree), and a server that abandons after k chunks has taken exactly the first k',
+    'Wg.wsgi_stream_closed_exactly_once': 'WSGI: once streaming has begun (non-HEAD, body-bearing status, body taken from the stream) the stream\'s close() is called exactly once - for every index at which the stream raises and every number of chunks after which the server abandons the iterable (none, zero included) - for a file-like stream in CloseableStreamIterator, a file-like stream handed to a wsgi.file_wrapper that forwards close() (PEP 3333\'s does) and an iterable stream returned as is; by an invariant of the server loop: iterating never closes',
+    'Wg.wsgi_file_wrapper_owns_close': 'with wsgi.file_wrapper and a file-like stream falcon calls the wrapper exactly once with the untouched stream, returns its result unchanged and never closes the stream itself: every close() that reaches the stream is the wrapper\'s (zero if the wrapper does not forward it)',
+    'Wg.wsgi_not_begun_never_closed': 'when streaming does not begin (HEAD, 1xx/204/304, another body source, no stream) the server gets a plain list and the stream is never closed',
+    'Fe.render_error_body_is_sent': 'both stacks: when render_body() raises (no handler for the media type / serialize raises), the error handler\'s response is rendered again and the payload is the one that response provides by the usual precedence, with its status (F17 repaired, fix 492d3f9) - for every error handler, modelled as an arbitrary function of the response with text/data/media reset',
+    'Fe.render_error_twice_empty_body': 'both stacks: if rendering the error handler\'s response raises too, the response is sent with the handler\'s status, an empty payload and - when non-HEAD and body-bearing - Content-Length 0',
+    'Fe.err_content_length_exact': 'both stacks: on the render-error path (non-HEAD, body-bearing status of the handler\'s response, body not taken from a stream) Content-Length is exactly the payload length',
+    'Fe.err_wsgi_asgi_agree': 'on every path of the render/except/render/except structure the two stacks agree: an exception leaves both __call__s or neither; same status, header list, payload, stream-error propagation',
+    'Fe.wsgiE_ok': 'without a render-time error the extended model is Fz.wsgi (so every earlier theorem applies unchanged)',
+    'Sse.sse_frames_wellformed': 'ASGI with resp.sse set, for every response state, event list, emitter fault index, unserialisable event, send() fault index and disconnect point: one start event first, then body events of which only the last has more_body false, nothing afterwards; a run ended by an exception sent nothing or the start event followed only by body events with more_body true',
+    'Sse.sse_one_body_per_event': 'non-HEAD, body-bearing status, no fault: the exchange is the start event (status, header list with text/event-stream as default type), exactly one body event with more_body true per event the emitter yielded (None = the ping event) carrying SSEvent.serialize of it, in order, then the final empty body event; close() is not called',
+    'Sse.sse_serialize_fields_exact': 'SSEvent.serialize, for every event whose values contain no line feed: the chunk read back by the event-stream line grammar is exactly one block (non-empty field lines, a blank line, nothing after) whose fields are the attributes that were set, in the order comment, event, id, retry, data - the data field being data, else text, else the serialised json - or the single comment "ping" when nothing is set',
+    'Sse.sse_multiline_data_is_not_split': 'witness: text "a\\nb" is written as one data line followed by a stray line "b" - multi-line values are not split into several data: lines (reported; outside the property statement)',
+    'Sse.serialize_none_iff': 'serialize raises exactly when data is not well-formed UTF-8, or json is the data source and its handler raises',
+    'Sse.sse_disconnect_complete': 'a client disconnect noticed after any event ends the loop and the exchange is still completed by the final body event',
+    'Sse.sse_start_content_type': 'the SSE start event is typed text/event-stream unless the response already has a Content-Type, which then stays',
 }
 TRUSTED = [
-    'the WSGI server calls close() on the returned iterable and a server-supplied wsgi.file_wrapper closes its file (PEP 3333 duties; the monitor plays that server)',
-    'asyncio.wait_for(app, 2 s) deciding "the ASGI application did not return"',
-    'SSE: disconnect-watcher task cancellation timing is not examined (only what is sent)',
+    'the WSGI server calls close() on the returned iterable and a server-supplied wsgi.file_wrapper iterates read(block) and forwards close() to its file (PEP 3333 duties; the monitor plays that server, the Lean model Wg.serve transcribes it; Wg.wsgi_file_wrapper_owns_close states what holds for a wrapper that does not forward close())',
+    'asyncio.wait_for(app, 3 s, then 20 s) deciding "the ASGI application did not return"',
+    'SSE: the moment at which the disconnect watcher task completes is an input of the model (the harness makes the client disconnect before a chosen event and yields to the event loop); the watcher task itself is not modelled (it is left pending when an exception ends the SSE loop - reported)',
+    'the independent event-stream interpreter (HTML standard 9.2.6) used as the SSE oracle',
 ]
 ASSUMPTIONS = [
-    'status values are valid (int 100..999, status line "NNN reason", http.HTTPStatus); header names/values the application sets are latin-1 tokens/strings',
-    'WSGI: close()-exactly-once rests on the server calling close() on the returned iterable (PEP 3333) - checked on the real code by the monitor playing the server (all abandon points), no theorem; SSE framing: oracle only (no Lean model)',
-    'render-time errors (media with an unsupported type / unserialisable) and responders that raise are outside the Lean model: oracle only',
+    'status values are valid (int or digit string 100..999, status line "NNN reason", http.HTTPStatus); an invalid numeric status is modelled (ValueError, no start_response) and tied on WSGI only; header names/values the application sets are latin-1 tokens/strings',
+    'falcon.status_codes.HTTP_<n> has the form "<n> <phrase>" (hypothesis TableOk of the status-line theorem; checked on the real module by the oracle status-table)',
+    'responders that raise (HTTPError, HTTPStatus, redirects, other exceptions) and the stock error serializer are outside the Lean models: oracle only. Render-time errors are modelled for an arbitrary error handler (a function of the response state); the tie uses generated handlers; with the stock handlers: oracle only',
+    'custom response classes overriding render_body(), a Set-Cookie added with append_header: oracle only',
+    'SSE: str attributes are well-formed Unicode (no lone surrogates); multi-line values are serialised as falcon does (not split, see Sse.sse_multiline_data_is_not_split) and excluded from the read-back oracle; retry is an int (not bool)',
     'F16 stays in the code: 204/304 + media + no explicit type is reported as KNOWN-FINDING, any other framework-supplied Content-Type on 204/304 is a violation',
 ]
 RULE = ('random response plans: status (int / canonical status line / status line with a foreign reason phrase / bare code string / http.HTTPStatus / unknown codes) x '
@@ -50,8 +85,14 @@ RULE = ('random response plans: status (int / canonical status line / status lin
         'app default media type x response class (stock, subclass, subclass overriding render_body) x wsgi.file_wrapper on/off x responder raising '
         '(HTTPNotFound, HTTPError, redirect, HTTPStatus, RuntimeError; before or after filling) x SSE emitters (ASGI); every plan is run on WSGI and on ASGI; '
         'for a streamed response additionally every stream-fault index, every server-abandon point (WSGI) and every send-fault index (ASGI) is run. '
+        'Extension runs: (a) render-time errors: a plan whose media cannot be rendered (unsupported explicit / default type, unserialisable value, registered handler raising in serialize / serialize_async, '
+        'or none) x a generated error handler (a second plan applied to the response: any status, body sources incl. media that fails again, a new stream or the old one, headers, cookies; or the handler raises), both stacks; '
+        '(b) SSEvent.serialize on generated events: each of data (valid/invalid/overlong/surrogate/out-of-range UTF-8, random bytes), text, json (5 values + unserialisable), event, id, retry (0, negative, > 2^64), comment '
+        'independently present, strings incl. empty, leading colon/space, colon inside, non-ASCII, LF/CR inside; (c) SSE responses: a plan + 0-4 generated events (None included) run fault-free, with send() failing at every index, '
+        'the emitter raising at every index (after the last included), the client disconnecting after every event, and random fault combinations; (d) invalid numeric statuses on WSGI. '
         'non-trivial = some body source set or the responder raised; distinct = distinct (stack, plan, fault point)')
-PARTIAL = ''
+PARTIAL = ('responders that raise and the stock error handlers / error serializer (oracle only, modelled under C04); response classes overriding render_body(); '
+           'SSE values containing line breaks are modelled as falcon writes them but have no read-back theorem (falcon does not split them); the disconnect watcher task is an input, not a model')
 JOBS = {'quick': 4, 'thorough': 16}
 
 F16_WHAT = '204/304 carries a framework-supplied Content-Type with media set and no explicit type'
@@ -104,7 +145,10 @@ def run(ctx):
     def wres():
         class Res:
             def on_get(self, req, resp):
-                CUR['probe'] = R.fill(resp, CUR['plan'], False, CUR['snap'])
+                try:
+                    CUR['probe'] = R.fill(resp, CUR['plan'], False, CUR['snap'])
+                finally:
+                    CUR['stream_obj'] = resp.stream
             on_head = on_post = on_put = on_delete = on_patch = on_options = on_get
         return Res()
 
@@ -145,10 +189,67 @@ def run(ctx):
             apps[key] = a
         return apps[key]
 
+    class CountingFW(H.FileWrapper):
+        """PEP 3333's wsgi.file_wrapper; counts how often the application calls it."""
+
+        def __init__(self, filelike, blksize=8192):
+            CUR['fw_calls'] = CUR.get('fw_calls', 0) + 1
+            super().__init__(filelike, blksize)
+
     sess = ctx.session('tails of falcon.App.__call__ / falcon.asgi.App.__call__ = Fz model (status, header list in order, chunks, stream-error propagation)', 'fzdriver')
     sess_t = ctx.session('events handed to ASGI send() under stream faults and send() faults at every index + close() count = Fz.asgiTrace', 'fztdriver')
+    sess_w = ctx.session('WSGI: start_response calls (status line, header pairs), chunks a PEP 3333 server takes from the returned iterable, close() calls reaching the stream, '
+                         'close() on the iterable, wsgi.file_wrapper calls - under every stream fault and every server-abandon point = Wg.call + Wg.serve', 'fz2driver')
+    sess_e = ctx.session('render-time errors with generated error handlers (second rendering, double failure, handler raising), WSGI and ASGI = Fe.wsgiE / Fe.asgiE', 'fz2driver')
+    sess_ser = ctx.session('falcon.asgi.SSEvent.serialize on generated events (bytes or the exception) = Sse.serialize', 'fz2driver')
+    sess_s = ctx.session('ASGI events of SSE responses under emitter faults, unserialisable events, send() faults at every index and client disconnects + close() count = Sse.sseTrace', 'fz2driver')
     f16_reported = [0]
     hangs = [0]
+
+    # ------------------------------------------------------------------ WSGI event-level correspondence (Wg)
+    def sv_of(p):
+        """resp.status as code_to_http_status sees it + the falcon.status_codes entry it looks up (input of the model)."""
+        import http
+        f = p['status_form']
+        if f == 'enum':
+            return f"e:{p['code']}:{R.hs(http.HTTPStatus(p['code']).phrase)}", 'none'
+        if f in ('line', 'line*'):
+            return 'l:' + R.hs(p['status']), 'none'
+        n = int(p['status'])
+        ent = getattr(falcon.status_codes, 'HTTP_%d' % n, None)
+        return f'c:{n}', ('none' if ent is None else R.hs(ent))
+
+    def has_close_w(p):
+        # a generator object has close(), too (the server calls it)
+        return p['stream'] is not None and p['stream']['kind'] in ('file', 'iter', 'gen')
+
+    def show_hdrs(hl):
+        hl = [(k, R.norm_cookie(v) if k.lower() == 'set-cookie' else v) for k, v in hl]
+        return ';'.join(R.hs(k) + ':' + R.hs(v) for k, v in hl)
+
+    def wsgi_show(p, rec, probe):
+        fw = CUR.get('fw_calls', 0)
+        if rec['app_exc'] is not None:
+            return f"{len(rec['start'])}|raised|{fw}"
+        if len(rec['start']) == 1:
+            st, hl, _ = rec['start'][0]
+            start = f"{R.hs(st)}|{show_hdrs(hl)}"
+        else:
+            start = '?|?'
+        if p['stream'] is not None and p['stream']['kind'] == 'gen':
+            # the probe cannot count close() on a generator object: count the server's call on the very object
+            closes = rec['closed_iterable'] if rec['returned'] is CUR.get('stream_obj') else 0
+        else:
+            closes = probe.closed if probe else 0
+        return (f"{len(rec['start'])}|{start}|{','.join(R.hx(c) for c in rec['chunks'])}|{1 if rec['iter_exc'] is not None else 0}|"
+                f"{closes}|{rec['closed_iterable']}|{fw}")
+
+    def wsgi_case(p, rec, probe, snap, abandon_after):
+        if R.in_model(p) and 'hdr' in snap and not rec.get('hang'):
+            sv, tbl = sv_of(p)
+            sess_w.case({'plan': p, 'abandon_after': abandon_after})
+            sess_w.op('wsgi ' + R.fz_line(p, snap)[5:] + f" close={1 if has_close_w(p) else 0} sv={sv} tbl={tbl} wc=1 "
+                      f"ab={'-' if abandon_after is None else abandon_after}", wsgi_show(p, rec, probe))
 
     def trace_case(p, rec, probe, snap, send_fail_at):
         if R.in_model(p) and 'hdr' in snap and not rec['hang']:
@@ -160,10 +261,10 @@ def run(ctx):
         errs = io.StringIO()
 
         def once():
-            CUR.update(plan=p, snap={}, probe=None)
+            CUR.update(plan=p, snap={}, probe=None, fw_calls=0, stream_obj=None)
             errs.seek(0); errs.truncate()
             w = H.Wire(method=p['method'], target='/', headers=[('Host', 'localhost')])
-            env = H.wsgi_environ(w, file_wrapper=H.FileWrapper if p['fw'] else None, errors=errs)
+            env = H.wsgi_environ(w, file_wrapper=CountingFW if p['fw'] else None, errors=errs)
             return H.drive_wsgi(get_app(False, p), env, abandon_after=abandon_after)
         rec, hung = H.guarded(once)
         if hung:
@@ -216,6 +317,11 @@ def run(ctx):
             ex = rec['app_exc']
             if ex is not None:
                 allowed = (isinstance(ex, R.StreamFault) and sfail is not None) or (isinstance(ex, OSError) and rec['send_failed'] and not isinstance(ex, R.StreamFault))
+                if sse and not allowed:
+                    # an emitter that raises / an event that cannot be written (data not UTF-8, json not serialisable) is the
+                    # application's fault, like a failing stream: the exchange is cut short
+                    allowed = (isinstance(ex, R.StreamFault) and p.get('sse_fail') is not None) or \
+                              (isinstance(ex, (UnicodeDecodeError, TypeError)) and any(isinstance(e, dict) and sse_unserialisable(e) for e in p['sse']))
                 if not allowed:
                     mon.append(f'the application raised {type(ex).__name__}: {ex}')
             ctx.oracle('asgi-http', not mon, '; '.join(mon) or None, case)
@@ -317,9 +423,25 @@ def run(ctx):
 
         # --- SSE framing (ASGI): one event per emitted SSEvent, all with more_body, then the final event
         if sse and not bodiless_obs and not cut_short:
-            exp = R.sse_expected(p['sse'])
-            ok = chunks[:-1] == exp and chunks[-1:] == [b'']
-            ctx.oracle('sse', ok, None if ok else f'SSE body events {chunks!r}, expected {exp!r} + final', case)
+            specs = p['sse']
+            if p.get('sse_disc') is not None:
+                specs = specs[:p['sse_disc'] + 1]   # the client went away after that event
+            if all(isinstance(e, str) for e in specs):
+                exp = R.sse_expected(specs)
+                ok = chunks[:-1] == exp and chunks[-1:] == [b'']
+                ctx.oracle('sse', ok, None if ok else f'SSE body events {chunks!r}, expected {exp!r} + final', case)
+            else:
+                # generated events: one body event per emitted event, each read back by an SSE consumer as that event
+                what = None
+                if len(chunks) != len(specs) + 1 or chunks[-1] != b'':
+                    what = f'{len(chunks)} body events for {len(specs)} SSE events (+ the final empty one)'
+                else:
+                    for e, ch in zip(specs, chunks):
+                        if sse_clean(e):
+                            what = sse_event_ok(e, ch)
+                            if what:
+                                break
+                ctx.oracle('sse', what is None, what, case)
 
         self_close(case, p, probe, fs, asgi, sse, started, bodiless_obs)
 
@@ -347,6 +469,7 @@ def run(ctx):
         """Run the plan on both stacks (no server-side fault); feed the oracles and, inside the model's domain, the correspondence."""
         wrec, wprobe, wsnap = go_wsgi(p)
         judge('wsgi', p, wrec, wprobe, {})
+        wsgi_case(p, wrec, wprobe, wsnap, None)
         pa = p
         arec, aprobe, asnap = go_asgi(pa)
         judge('asgi', pa, arec, aprobe, {})
@@ -370,6 +493,536 @@ def run(ctx):
         else:
             ctx.count('oracle_only')
         return wrec, arec
+
+    # ================================================================== extension runs (Wg / Fe / Sse models)
+    RENDER_OK_TYPES = ('application/json',)
+    FAIL_TYPES = ('application/x-fail', 'application/x-fail-async')
+
+    class FailHandler(falcon.media.BaseHandler):
+        """A registered media handler whose serialisation raises."""
+
+        def serialize(self, media, content_type):
+            raise RuntimeError('media handler failure')
+
+        def deserialize(self, stream, content_type, content_length):
+            raise RuntimeError('media handler failure')
+
+    class FailHandlerAsync(FailHandler):
+        async def serialize_async(self, media, content_type):
+            raise RuntimeError('async media handler failure')
+
+    def w_eh(req, resp, ex, params):
+        CUR['eh_calls'] = CUR.get('eh_calls', 0) + 1
+        if CUR['plan2'] == 'raise':
+            raise RuntimeError('error handler failure')
+        CUR['probe2'] = R.fill(resp, CUR['plan2'], False, CUR['snap2'])
+
+    async def a_eh(req, resp, ex, params):
+        CUR['eh_calls'] = CUR.get('eh_calls', 0) + 1
+        if CUR['plan2'] == 'raise':
+            raise RuntimeError('error handler failure')
+        CUR['probe2'] = R.fill(resp, CUR['plan2'], True, CUR['snap2'])
+    rapps = {}
+
+    def get_rapp(asgi, p):
+        key = (asgi, p['dflt'], p['resp_class'])
+        if key not in rapps:
+            kw = {'media_type': p['dflt']}
+            if RC[(asgi, p['resp_class'])] is not None:
+                kw['response_type'] = RC[(asgi, p['resp_class'])]
+            a = (falcon.asgi.App if asgi else falcon.App)(**kw)
+            a.add_route('/', ares() if asgi else wres())
+            a.resp_options.media_handlers['application/x-fail'] = FailHandler()
+            a.resp_options.media_handlers['application/x-fail-async'] = FailHandlerAsync()
+            a.add_error_handler(Exception, a_eh if asgi else w_eh)
+            a.add_error_handler(falcon.HTTPError, a_eh if asgi else w_eh)
+            rapps[key] = a
+        return rapps[key]
+
+    def media_raises(p, hdr):
+        """Rendering the media of this response state raises (decided from the documentation: no handler for the type,
+        a handler that fails, a value the JSON handler cannot serialise)."""
+        if p['media'] is None:
+            return False
+        ct = dict(hdr).get('content-type') or p['dflt']
+        return ct not in RENDER_OK_TYPES or p['media'] == 'unserialisable'
+
+    def state_fields(p, snap, mr, sfx):
+        B = lambda b: 'none' if b is None else R.hx(b)  # noqa: E731
+        st = p['stream']
+        stream = '-' if st is None else ('f' if st['kind'].startswith('file') else 'i') + ':' + (','.join(R.hx(c) for c in st['chunks']) or '.')
+        fail = '-' if st is None or st['fail'] is None else st['fail']
+        text = None if p['text'] is None else p['text'].encode()
+        media = None if p['media'] is None else (b'' if (mr or p['media'] == 'unserialisable') else R.media_bytes(p['media']))
+        return (f"status{sfx}={p['code']} text{sfx}={B(text)} data{sfx}={B(p['data'])} media{sfx}={B(media)} stream{sfx}={stream} fail{sfx}={fail} "
+                f"hdr{sfx}={';'.join(R.hs(k) + ':' + R.hs(v) for k, v in snap['hdr']) or '.'} "
+                f"cookies{sfx}={';'.join(R.hs(c) for c in snap['cookies']) or '.'}")
+
+    def gen_rerr(rnd):
+        p = R.gen_plan(rnd, sse_ok=False, errors_ok=False)
+        p['resp_class'] = rnd.choice(['std', 'std', 'sub'])
+        p['extra_set_cookie'] = False
+        if rnd.random() < 0.85:
+            p['text'] = p['data'] = None
+            p['media'] = rnd.choice(['dict', 'dict', 'empty-dict', 'zero', 'str', 'list'])
+            cause = rnd.choice(['ct', 'ct', 'dflt', 'unser', 'handler', 'handler-async', 'none'])
+            if cause == 'ct':
+                p['ct'] = rnd.choice(['application/x-unknown', 'text/x-custom'])
+            elif cause == 'dflt':
+                p['ct'], p['dflt'] = None, 'text/plain'
+            elif cause == 'unser':
+                p['media'] = 'unserialisable'
+                p['ct'] = rnd.choice([None, 'application/json'])
+                p['dflt'] = 'application/json'
+            elif cause == 'handler':
+                p['ct'] = 'application/x-fail'
+            elif cause == 'handler-async':
+                p['ct'] = 'application/x-fail-async'
+        return p
+
+    def gen_rerr2(rnd):
+        if rnd.random() < 0.06:
+            return 'raise'
+        p2 = R.gen_plan(rnd, sse_ok=False, errors_ok=False)
+        p2['extra_set_cookie'] = False
+        r = rnd.random()
+        if r < 0.3:      # what the handler leaves cannot be rendered either
+            p2['text'] = p2['data'] = None
+            p2['media'] = rnd.choice(['dict', 'unserialisable', 'str'])
+            p2['ct'] = rnd.choice(['application/x-unknown', 'application/x-fail', 'application/x-fail-async']) if p2['media'] != 'unserialisable' else 'application/json'
+        elif r < 0.55:   # a JSON representation, explicitly typed (what the stock serializer does)
+            p2['text'] = None
+            p2['ct'] = 'application/json'
+            if p2['data'] is None and p2['media'] is None:
+                p2['data'] = b'{"title": "err"}'
+        return p2
+
+    def rerr_show_w(rec):
+        if rec.get('hang'):
+            return 'hang'
+        if rec['app_exc'] is not None:
+            return 'raised'
+        st, hl, _ = rec['start'][0]
+        return R.fz_show(int(st[:3]), hl, rec['chunks'], rec['iter_exc'] is not None)
+
+    def rerr_show_a(rec):
+        if rec['hang']:
+            return 'hang'
+        resp = H.asgi_response(rec)
+        if resp is None:
+            return 'raised' if rec['app_exc'] is not None else 'nothing'
+        code, hs_, chunks = resp
+        return R.fz_show(code, hs_, chunks, rec['app_exc'] is not None)
+
+    def judge_rerr(stack, p, p2, rec, mr, mr2):
+        """Oracles of the render-error path, from the property statement + the documented error handling."""
+        asgi = stack == 'asgi'
+        case = {'stack': stack, 'plan': p, 'handler_plan': p2, 'first_render_raises': mr, 'second_render_raises': mr2}
+        handler_raises = mr and p2 == 'raise'
+        sfails = [q['stream']['fail'] for q in (p, p2) if isinstance(q, dict) and q['stream'] is not None]
+        if rec.get('hang'):
+            ctx.oracle('asgi-http' if asgi else 'pep3333', False, 'the application did not return', case)
+            return
+        ex = rec['app_exc']
+        if not asgi:
+            mon = H.pep3333_monitor(rec)
+            if ex is not None and not handler_raises:
+                mon.append(f'the application raised {type(ex).__name__} instead of responding')
+            if rec['iter_exc'] is not None and not (isinstance(rec['iter_exc'], R.StreamFault) and any(f is not None for f in sfails)):
+                mon.append(f'iterating the body raised {type(rec["iter_exc"]).__name__}')
+            ctx.oracle('pep3333', not mon, '; '.join(mon) or None, case)
+            if mon or ex is not None:
+                return
+            status_line, hl, _ = rec['start'][0]
+            code, headers, chunks = int(status_line[:3]), [(k.lower(), v) for k, v in hl], rec['chunks']
+            cut_short = rec['iter_exc'] is not None
+        else:
+            mon = H.asgi_monitor(rec)
+            if ex is not None and not handler_raises and not (isinstance(ex, R.StreamFault) and any(f is not None for f in sfails)):
+                mon.append(f'the application raised {type(ex).__name__}: {ex}')
+            ctx.oracle('asgi-http', not mon, '; '.join(mon) or None, case)
+            resp = H.asgi_response(rec)
+            if mon or resp is None:
+                return
+            code, headers, chunks = resp
+            cut_short = ex is not None
+        if not mr or p2 == 'raise':
+            return   # the ordinary path is judged by the main loop
+        body = b''.join(chunks)
+        bodiless_obs = p['method'] == 'HEAD' or code in R.BODILESS
+        ok = code == p2['code']
+        ctx.oracle('status', ok, None if ok else f'status {code}, the error handler set {p2["code"]}', case)
+        if bodiless_obs:
+            ctx.oracle('bodiless', body == b'', None if body == b'' else f'{len(body)} body bytes on a {"HEAD" if p["method"] == "HEAD" else code} response', case)
+            return
+        src2 = next((x for x in ('text', 'data', 'media') if p2[x] is not None), None)
+        stream2 = p2['stream'] or p['stream']
+        cls = [v for k, v in headers if k == 'content-length']
+        if mr2:
+            ok = body == b'' and cls == ['0']
+            ctx.oracle('render-error body', ok, None if ok else f'rendering failed twice: body {body!r}, Content-Length {cls} (expected an empty body, length 0)', case)
+            return
+        if src2 is not None:
+            if src2 == 'text':
+                ok = body == p2['text'].encode()
+            elif src2 == 'data':
+                ok = body == p2['data']
+            else:
+                try:
+                    ok = json.loads(body.decode('utf-8')) == R.MEDIA[p2['media']]
+                except ValueError:
+                    ok = False
+            ctx.oracle('render-error body', ok, None if ok else f'error raised while rendering: body {body!r} is not the {src2} the error handler set', case)
+            ok = cls == [str(len(body))]
+            ctx.oracle('content-length', ok, None if ok else f'Content-Length {cls} but {len(body)} body bytes were sent', case)
+        elif stream2 is not None:
+            exp = []
+            for i, c in enumerate(stream2['chunks']):
+                if stream2['fail'] is not None and i >= stream2['fail']:
+                    break
+                if stream2['kind'].startswith('file') and c == b'':
+                    break
+                exp.append(c)
+            exp = b''.join(exp)
+            ok = exp.startswith(body) if cut_short else body == exp
+            ctx.oracle('render-error body', ok, None if ok else f'body {body!r} is not what the stream left on the response provides', case)
+        else:
+            ok = body == b'' and cls == ['0']
+            ctx.oracle('render-error body', ok, None if ok else f'body {body!r}, Content-Length {cls} for a handler response without a body', case)
+
+    def go_rerr(asgi, p, p2):
+        CUR.update(plan=p, plan2=p2, snap={}, snap2={}, probe=None, probe2=None, eh_calls=0, fw_calls=0, stream_obj=None)
+        w = H.Wire(method=p['method'], target='/', headers=[('Host', 'localhost')])
+        if asgi:
+            for timeout in (3.0, 20.0):
+                CUR.update(snap={}, snap2={}, probe=None, probe2=None, eh_calls=0)
+                rec = loop.run_until_complete(H.drive_asgi(get_rapp(True, p), H.asgi_scope(w), H.asgi_events(b''), timeout=timeout))
+                if not rec['hang']:
+                    break
+        else:
+            def once():
+                CUR.update(snap={}, snap2={}, probe=None, probe2=None, eh_calls=0, fw_calls=0)
+                env = H.wsgi_environ(w, file_wrapper=CountingFW if p['fw'] else None, errors=io.StringIO())
+                return H.drive_wsgi(get_rapp(False, p), env)
+            rec, hung = H.guarded(once)
+            if hung:
+                rec = {}
+            rec['hang'] = hung
+        return rec, dict(CUR['snap']), dict(CUR['snap2']), CUR['eh_calls']
+
+    def rerr_run(n):
+        for _ in range(n):
+            p, p2 = gen_rerr(rnd), gen_rerr2(rnd)
+            wrec, wsnap, wsnap2, wcalls = go_rerr(False, p, p2)
+            arec, asnap, asnap2, acalls = go_rerr(True, p, p2)
+            key = json.dumps([p, p2], sort_keys=True, default=repr)
+            ctx.seen(('rerr', key), True)
+            if 'hdr' not in wsnap or 'hdr' not in asnap:
+                continue
+            mr = media_raises(p, wsnap['hdr']) and p['text'] is None and p['data'] is None
+            mr2 = False
+            if mr and p2 != 'raise' and 'hdr' in wsnap2:
+                mr2 = media_raises(p2, wsnap2['hdr']) and p2['text'] is None and p2['data'] is None
+            judge_rerr('wsgi', p, p2, wrec, mr, mr2)
+            judge_rerr('asgi', p, p2, arec, mr, mr2)
+            ok = wcalls == acalls == (1 if mr else 0)
+            ctx.oracle('render-error handled once', ok, None if ok else f'error handler ran {wcalls} (WSGI) / {acalls} (ASGI) times, rendering raises: {mr}',
+                       {'plan': p, 'handler_plan': p2})
+            ctx.count('rerr_' + ('no_error' if not mr else 'handler_raises' if p2 == 'raise' else 'twice' if mr2 else 'handled'))
+            line = ('rerr ' + state_fields(p, wsnap, mr, '') + f" head={1 if p['method'] == 'HEAD' else 0} dflt={R.hs(p['dflt'])} fw={1 if p['fw'] else 0} mr={1 if mr else 0} ")
+            if not mr:
+                line += 'h=0'
+            elif p2 == 'raise':
+                line += 'h=0'
+            else:
+                if wsnap2 != asnap2 or 'hdr' not in wsnap2:
+                    sess_e.case({'plan': p, 'handler_plan': p2})
+                    sess_e.op(line + 'h=0', 'response state differs between the stacks after the error handler: ' + repr((wsnap2, asnap2)))
+                    continue
+                line += 'h=1 ' + state_fields(p2, wsnap2, mr2, '2') + f" mr2={1 if mr2 else 0}"
+            sess_e.case({'plan': p, 'handler_plan': p2})
+            if wsnap != asnap:
+                sess_e.op(line, 'response state differs between the stacks before finalization: ' + repr((wsnap, asnap)))
+            else:
+                sess_e.op(line, f'W {rerr_show_w(wrec)} A {rerr_show_a(arec)}')
+
+    # ------------------------------------------------------------------ status table / invalid numeric status (WSGI)
+    def status_run():
+        if ctx.shard[0] != 0:
+            return
+        import re as _re
+        bad = [k for k in dir(falcon.status_codes) if _re.fullmatch(r'HTTP_\d+', k)
+               and not _re.fullmatch(k[5:] + r' \S(.*\S)?', getattr(falcon.status_codes, k))]
+        ctx.oracle('status-table', not bad, None if not bad else f'falcon.status_codes entries not of the form "<code> <phrase>": {bad}', {'entries': bad})
+        for n in (0, 7, 42, 99, 1000, 2000, 65536):
+            p = R.gen_plan(rnd, sse_ok=False, errors_ok=False)
+            p.update(status_form='int', status=n, code=n, resp_class='std', extra_set_cookie=False, media=None, method='GET')
+            rec, probe, snap = go_wsgi(p)
+            if 'hdr' in snap and not rec.get('hang'):
+                sess_w.case({'plan': p, 'invalid_status': n})
+                sess_w.op('wsgi ' + R.fz_line(p, snap)[5:] + f" close={1 if has_close_w(p) else 0} sv=c:{n} tbl=none wc=1 ab=-", wsgi_show(p, rec, probe))
+            ctx.seen(('bad-status', n), True)
+
+    # ------------------------------------------------------------------ SSE
+    SSE_STRS = ['', 'x', 'hi thére', 'a: b', ':lead', ' sp', 'tab\there', '日本', 'two\nlines', 'cr\rhere', 'end\n', '0']
+    SSE_DATAS = [b'', b'raw', b'caf\xc3\xa9', b'\xe2\x82\xac', b'\xf0\x9f\x98\x80', b'\xff', b'\xc0\xaf', b'\xed\xa0\x80', b'\xf4\x90\x80\x80',
+                 b'\xe0\x9f\xbf', b'\xc3', b'a\nb', b'\xef\xbf\xbd', b'\xed\x9f\xbf', b'\xf4\x8f\xbf\xbf', b'\xf0\x8f\xbf\xbf', b'\x80']
+    SSE_JSON_KEYS = list(R.SSE_JSONS) + ['unserialisable']
+
+    def gen_sse_event(rnd):
+        if rnd.random() < 0.1:
+            return 'none'
+        e = {k: None for k in ('data', 'text', 'json', 'event', 'event_id', 'retry', 'comment')}
+        if rnd.random() < 0.25:
+            e['data'] = bytes(rnd.randrange(256) for _ in range(rnd.randint(1, 4))) if rnd.random() < 0.3 else rnd.choice(SSE_DATAS)
+        if rnd.random() < 0.5:
+            e['text'] = rnd.choice(SSE_STRS)
+        if rnd.random() < 0.35:
+            e['json'] = rnd.choice(SSE_JSON_KEYS)
+        if rnd.random() < 0.4:
+            e['event'] = rnd.choice(SSE_STRS)
+        if rnd.random() < 0.35:
+            e['event_id'] = rnd.choice(SSE_STRS)
+        if rnd.random() < 0.3:
+            e['retry'] = rnd.choice([0, 5, -5, 1000, 10 ** 20, 7, -1])
+        if rnd.random() < 0.35:
+            e['comment'] = rnd.choice(SSE_STRS)
+        return e
+
+    def ev_tok(e):
+        if e == 'none':
+            return 'N'
+        fs = []
+        if e['data'] is not None:
+            fs.append('d:' + R.hx(e['data']))
+        if e['text'] is not None:
+            fs.append('t:' + R.hx(e['text'].encode()))
+        if e['json'] is not None:
+            fs.append('j:' + ('raises' if e['json'] == 'unserialisable' else R.hx(json.dumps(R.SSE_JSONS[e['json']], ensure_ascii=False).encode())))
+        if e['event'] is not None:
+            fs.append('e:' + R.hx(e['event'].encode()))
+        if e['event_id'] is not None:
+            fs.append('i:' + R.hx(e['event_id'].encode()))
+        if e['retry'] is not None:
+            fs.append('r:%d' % e['retry'])
+        if e['comment'] is not None:
+            fs.append('c:' + R.hx(e['comment'].encode()))
+        return ','.join(fs) or 'E'
+
+    def sse_unserialisable(e):
+        """The event cannot be written: its data is not UTF-8 text / its json value is not JSON (decided with the stdlib codecs)."""
+        if e == 'none':
+            return False
+        if e['data'] is not None:
+            import codecs
+            try:
+                codecs.getdecoder('utf-8')(e['data'], 'strict')
+                return False
+            except UnicodeDecodeError:
+                return True
+        return e['text'] is None and e['json'] == 'unserialisable'
+
+    def sse_interpret(stream):
+        """The event-stream interpretation of the HTML standard (9.2.6), independent of falcon: the list of blocks."""
+        import re as _re
+        lines = _re.split('\r\n|\n|\r', stream.decode('utf-8'))
+        blocks, cur = [], {'data': [], 'event': None, 'id': None, 'retry': None, 'comments': [], 'other': []}
+        for line in lines[:-1]:
+            if line == '':
+                blocks.append(cur)
+                cur = {'data': [], 'event': None, 'id': None, 'retry': None, 'comments': [], 'other': []}
+            elif line.startswith(':'):
+                cur['comments'].append(line[1:])
+            else:
+                name, _, value = line.partition(':')
+                if value.startswith(' '):
+                    value = value[1:]
+                if name == 'event':
+                    cur['event'] = value
+                elif name == 'data':
+                    cur['data'].append(value)
+                elif name == 'id':
+                    cur['id'] = value
+                elif name == 'retry':
+                    cur['retry'] = value
+                else:
+                    cur['other'].append((name, value))
+        return blocks, lines[-1], cur
+
+    def sse_event_ok(e, chunk):
+        """None if the chunk, read by an SSE consumer, is exactly the event that was emitted; else what is wrong.
+        Only for events whose values contain no line break (falcon does not split multi-line values)."""
+        if sse_unserialisable(e):
+            return f'the chunk {chunk!r} was produced for an event that cannot be written (data not UTF-8 / json not serialisable)'
+        try:
+            blocks, rest, cur = sse_interpret(chunk)
+        except UnicodeDecodeError:
+            return 'the chunk is not UTF-8'
+        empty = {'data': [], 'event': None, 'id': None, 'retry': None, 'comments': [], 'other': []}
+        if len(blocks) != 1 or rest != '' or cur != empty:
+            return f'{len(blocks)} event blocks / trailing {rest!r}'
+        b = blocks[0]
+        if e == 'none' or all(v is None for v in e.values()):
+            want = {'data': [], 'event': None, 'id': None, 'retry': None, 'comments': [' ping'], 'other': []}
+        else:
+            if e['data'] is not None:
+                d = [e['data'].decode('utf-8')]
+            elif e['text'] is not None:
+                d = [e['text']]
+            elif e['json'] is not None:
+                d = None   # compared as JSON
+            else:
+                d = []
+            want = {'data': d, 'event': e['event'], 'id': e['event_id'], 'retry': None if e['retry'] is None else str(e['retry']),
+                    'comments': [] if e['comment'] is None else [' ' + e['comment']], 'other': []}
+            if d is None:
+                try:
+                    if len(b['data']) != 1 or json.loads(b['data'][0]) != R.SSE_JSONS[e['json']]:
+                        return f'data field {b["data"]!r} is not the JSON value'
+                except ValueError:
+                    return f'data field {b["data"]!r} is not JSON'
+                want['data'] = b['data']
+        return None if b == want else f'read back {b!r}, emitted {want!r}'
+
+    def sse_clean(e):
+        return e == 'none' or not any(isinstance(v, (str, bytes)) and (('\n' in v or '\r' in v) if isinstance(v, str) else (b'\n' in v or b'\r' in v))
+                                      for k, v in e.items() if k != 'json')
+
+    def ser_run(n):
+        from falcon.asgi import SSEvent
+        for _ in range(n):
+            e = gen_sse_event(rnd)
+            if e == 'none':
+                e = {k: None for k in ('data', 'text', 'json', 'event', 'event_id', 'retry', 'comment')}
+            ev = R.sse_events([e])[0]
+            try:
+                out = ev.serialize()
+                shown = R.hx(out)
+            except (UnicodeDecodeError, TypeError) as ex:
+                out, shown = ex, 'raises'
+            sess_ser.case({'event': e})
+            sess_ser.op('ser ev=' + ev_tok(e), shown)
+            ctx.seen(('ser', json.dumps(e, sort_keys=True, default=repr)), True)
+            bad = sse_unserialisable(e)
+            if bad or isinstance(out, Exception):
+                ok = bad and isinstance(out, Exception)
+                ctx.oracle('sse-serialize', ok, None if ok else (f'serialize raised {out!r} for a writable event' if not bad else f'serialize returned {out!r} for an event that cannot be written'), {'event': e})
+                ctx.count('ser_raises')
+            elif sse_clean(e):
+                what = sse_event_ok(e, out)
+                ctx.oracle('sse-serialize', what is None, what, {'event': e, 'chunk': out})
+                ctx.count('ser_clean')
+            else:
+                ctx.count('ser_multiline_value_not_evaluated')
+
+    async def drive_gate(app, scope, events, gate, send_fail_at, timeout):
+        """H.drive_asgi with a client that disconnects when `gate` is set (http.disconnect is what receive() then returns)."""
+        rec = {'attempts': [], 'sent': [], 'app_exc': None, 'hang': False, 'send_failed': False, 'complete': False, 'receives': 0}
+        q = list(events)
+
+        async def receive():
+            rec['receives'] += 1
+            if q:
+                return q.pop(0)
+            await gate.wait()
+            return {'type': 'http.disconnect'}
+
+        async def send(msg):
+            idx = len(rec['attempts'])
+            rec['attempts'].append(msg)
+            if send_fail_at is not None and idx == send_fail_at:
+                rec['send_failed'] = True
+                raise OSError('send failed: peer went away')
+            rec['sent'].append(msg)
+        try:
+            await asyncio.wait_for(app(scope, receive, send), timeout)
+            rec['complete'] = True
+        except asyncio.TimeoutError:
+            rec['hang'] = True
+        except Exception as e:  # noqa
+            rec['app_exc'] = e
+        return rec
+
+    def go_sse(p, send_fail_at=None):
+        async def runit(timeout):
+            gate = asyncio.Event()
+
+            async def hook(i):
+                if p.get('sse_fail') == i:
+                    raise R.StreamFault(f'emitter fault at event {i}')
+                if p.get('sse_disc') == i:
+                    gate.set()
+                    for _ in range(6):
+                        await asyncio.sleep(0)
+            R.SSE_HOOK = hook
+            try:
+                w = H.Wire(method=p['method'], target='/', headers=[('Host', 'localhost')])
+                rec = await drive_gate(get_app(True, p), H.asgi_scope(w), H.asgi_events(b''), gate, send_fail_at, timeout)
+            finally:
+                R.SSE_HOOK = None
+            # the watcher task is left pending when an exception ends the SSE loop: reap it
+            for t in asyncio.all_tasks():
+                if t is not asyncio.current_task():
+                    t.cancel()
+            await asyncio.sleep(0)
+            return rec
+        for timeout in (3.0, 20.0):
+            CUR.update(plan=p, snap={}, probe=None)
+            rec = loop.run_until_complete(runit(timeout))
+            if not rec['hang']:
+                break
+        return rec, CUR['probe'], CUR['snap']
+
+    def sse_in_model(p):
+        return (p['raise'] is None and p['resp_class'] != 'render' and not p['extra_set_cookie'] and not R.render_fails(p)
+                and p['media'] != 'unserialisable')
+
+    def sse_case(p, rec, probe, snap, send_fail_at):
+        if sse_in_model(p) and 'hdr' in snap and not rec['hang']:
+            has_close = p['stream'] is not None and p['stream']['kind'] in ('file', 'iter')
+            f = lambda v: '-' if v is None else v  # noqa: E731
+            sess_s.case({'plan': p, 'send_fail_at': send_fail_at})
+            sess_s.op('sse ' + R.fz_line(p, snap)[5:] + f" close={1 if has_close else 0} evs={';'.join(ev_tok(e) for e in p['sse']) or '.'} "
+                      f"ef={f(p.get('sse_fail'))} disc={f(p.get('sse_disc'))} xf={f(send_fail_at)}",
+                      R.fzt_show(rec['sent'], probe.closed if probe else 0, rec['app_exc'] is not None))
+
+    def sse_run(n):
+        for _ in range(n):
+            p = R.gen_plan(rnd, sse_ok=False, errors_ok=False)
+            if rnd.random() < 0.7:
+                p['method'] = rnd.choice(['GET', 'GET', 'POST'])
+            if rnd.random() < 0.6:
+                p.update(status_form='int', status=200, code=200)
+            p['sse'] = [gen_sse_event(rnd) for _ in range(rnd.randint(0, 4))]
+            if rnd.random() < 0.55:   # mostly writable events, so that the later ones are reached
+                p['sse'] = [e for e in p['sse'] if not sse_unserialisable(e)]
+            p['sse_fail'] = p['sse_disc'] = None
+            key = json.dumps(p, sort_keys=True, default=repr)
+
+            def one(q, xf, tag):
+                rec, probe, snap = go_sse(q, send_fail_at=xf)
+                judge('asgi', q, rec, probe, {'send_fail_at': xf, 'sse_fail': q['sse_fail'], 'sse_disc': q['sse_disc']})
+                sse_case(q, rec, probe, snap, xf)
+                ctx.seen(('sse', key, tag), True)
+                ctx.count('sse_runs_' + tag.split(':')[0])
+                return rec
+            rec0 = one(p, None, 'plain')
+            nev = len(p['sse'])
+            for k in range(len(rec0['attempts']) + 1):
+                one(p, k, f'xf:{k}')
+            for k in range(nev + 1):
+                one(dict(p, sse_fail=k), None, f'ef:{k}')
+            for k in range(nev):
+                one(dict(p, sse_disc=k), None, f'disc:{k}')
+            if nev and rnd.random() < 0.5:   # a combination of faults
+                q = dict(p, sse_fail=rnd.choice([None, rnd.randint(0, nev)]), sse_disc=rnd.choice([None, rnd.randint(0, nev - 1)]))
+                one(q, rnd.choice([None, rnd.randint(0, nev + 2)]), 'combo')
+
+    def extra_runs():
+        status_run()
+        rerr_run(ctx.n(3000, 40000))
+        ser_run(ctx.n(8000, 100000))
+        sse_run(ctx.n(800, 10000))
 
     for ci in range(ctx.n(12000, 160000)):
         if hangs[0] >= 2:
@@ -399,8 +1052,9 @@ def run(ctx):
                     ctx.count('stream_fault_runs')
             # WSGI: the server abandons the iterable after k chunks
             for k in range(n + 1):
-                rec, probe, _ = go_wsgi(p, abandon_after=k)
+                rec, probe, snap = go_wsgi(p, abandon_after=k)
                 judge('wsgi', p, rec, probe, {'abandon_after': k})
+                wsgi_case(p, rec, probe, snap, k)
                 ctx.seen(('w-abandon', json.dumps(p, sort_keys=True, default=repr), k), True)
                 ctx.count('wsgi_abandon_runs')
         # ASGI: send() fails at every event index of the fault-free exchange
@@ -411,17 +1065,25 @@ def run(ctx):
                 trace_case(p, rec, probe, snap, k)
                 ctx.seen(('a-sendfail', json.dumps(p, sort_keys=True, default=repr), k), True)
                 ctx.count('asgi_send_fault_runs')
+    extra_runs()
     sess.finish()
     sess_t.finish()
+    sess_w.finish()
+    sess_e.finish()
+    sess_ser.finish()
+    sess_s.finish()
     loop.close()
 
 
-LEVEL_TEXT = ('Machine-checked theorems (Lean 4) over a model of the tails of falcon.App.__call__ and falcon.asgi.App.__call__: body precedence, no payload on HEAD/1xx/204/304, '
-              'forced exact Content-Length, Content-Type presence/absence (with the F16 exception made explicit and witnessed), WSGI = ASGI on every response state, and - on an event-level model '
-              'of the ASGI emission with a failing send() at any index - the start/body/more_body framing and close()-exactly-once under every stream and send fault. '
-              'The model is tied to the real apps on every run by a differential correspondence (exact status, header list in order, chunk list, stream-error propagation, both interfaces); '
-              'two independent protocol monitors written from PEP 3333 and the ASGI HTTP spec plus statement oracles decide failing inputs, with fault injection at every stream-call, '
-              'server-abandon and send index.')
-LEVEL_NOTE = ('Trusted: Lean kernel + standard axioms; harness, monitors and oracles; the WSGI server duty to call close() (WSGI close-once and SSE framing are checked on the real code by '
-              'the monitors only, no theorem). F16 is a recorded known finding.')
-TECHNIQUE = 'Lean 4 model + theorems of response finalization, differential correspondence model vs. real apps, independent PEP 3333 / ASGI protocol monitors with exhaustive fault-point injection'
+LEVEL_TEXT = ('Machine-checked theorems (Lean 4) over models of the tails of falcon.App.__call__ and falcon.asgi.App.__call__: body precedence, no payload on HEAD/1xx/204/304, '
+              'forced exact Content-Length, Content-Type presence/absence (with the F16 exception made explicit and witnessed), WSGI = ASGI on every response state; on an event-level model '
+              'of the ASGI emission with a failing send() at any index the start/body/more_body framing and close()-exactly-once under every stream and send fault; on an event-level model of the WSGI call '
+              '(code_to_http_status, one start_response, the list / wsgi.file_wrapper / CloseableStreamIterator / plain iterable, a PEP 3333 server that may abandon at any index) one start with a valid status line, '
+              'chunks = the body of the finalization model, close()-exactly-once as an invariant of the server loop; the render-error path (render, error handler, render again, empty body) reduced to the ordinary finalization on both stacks; '
+              'SSE framing under emitter, serialisation, send and disconnect faults, and SSEvent.serialize read back field by field. '
+              'Every model is tied to the real apps on every run by a differential correspondence (exact status line / status, header list in order, chunk or event list, close() counts, exception propagation); '
+              'independent protocol monitors written from PEP 3333, the ASGI HTTP spec and the event-stream format plus statement oracles decide failing inputs, with fault injection at every stream-call, '
+              'server-abandon, send, emitter and disconnect index.')
+LEVEL_NOTE = ('Trusted: Lean kernel + standard axioms; harness, monitors and oracles; the WSGI server duties of PEP 3333 (transcribed in Wg.serve). Responders that raise and the stock error handlers are '
+              'checked by the oracles only. F16 is a recorded known finding.')
+TECHNIQUE = 'Lean 4 models + theorems of response finalization (both stacks, event level, render-error path, SSE), differential correspondence model vs. real apps, independent PEP 3333 / ASGI / event-stream monitors with exhaustive fault-point injection'
